@@ -1,10 +1,10 @@
 SPECIFICATION Spec
 CONSTANTS
-  MaxLen4 = 3
-  MaxLen3 = 4
-  MaxLen3b = 4
-  RcLen = 2
-  SeqLen = 2
+  MaxLen4 = 6
+  MaxLen3 = 9
+  MaxLen3b = 8
+  RcLen = 5
+  SeqLen = 3
   Families = {"translate", "seq", "load", "names", "text", "table", "ctor", "variants", "pin"}
 INVARIANT InvOrfs
 INVARIANT InvSeq
